@@ -228,6 +228,10 @@ func (s *Server) handle(host string, w http.ResponseWriter, r *http.Request) {
 	if status == 0 {
 		status = 200
 	}
+	// logged before the first byte leaves: whatever the client saw of this response, the log already has it
+	s.emit(map[string]any{"ev": "resp", "host": host, "uri": uri, "url": "http://" + host + uri, "n": n, "status": status,
+		"sha1": hex.EncodeToString(sum[:]), "len": len(body), "ctype": resp.Headers["Content-Type"], "gzip": resp.Gzip, "chunked": resp.Chunked,
+		"cf": strings.EqualFold(resp.Headers["cf-mitigated"], "challenge")})
 	w.WriteHeader(status)
 	if resp.Chunked {
 		// write in pieces with flushes so that the framing really is chunked
@@ -245,7 +249,4 @@ func (s *Server) handle(host string, w http.ResponseWriter, r *http.Request) {
 	} else {
 		w.Write(wire)
 	}
-	s.emit(map[string]any{"ev": "resp", "host": host, "uri": uri, "url": "http://" + host + uri, "n": n, "status": status,
-		"sha1": hex.EncodeToString(sum[:]), "len": len(body), "ctype": resp.Headers["Content-Type"], "gzip": resp.Gzip, "chunked": resp.Chunked,
-		"cf": strings.EqualFold(resp.Headers["cf-mitigated"], "challenge")})
 }
